@@ -12,7 +12,7 @@ CONSTANTS
   Gaps <- GapsQuick
   RFs <- RFsQuick
   Ivs = {"Daily", "Annual365", "Hours2"}
-INVARIANTS TypeC16 AccSheet RatioLaws
+INVARIANTS TypeC16 AccSheet AccReturns RatioLaws TimeFreeC16
 PROPERTIES ResetIsFresh
 CHECK_DEADLOCK FALSE
 VIEW View
